@@ -13,6 +13,7 @@ Abstract syntax (Python tuples):
   ("nonlocal", [x ...]) | ("global", [x ...])
   ("lfor", kind, [clause ...], e)       clause = ("for", x, n) | ("setv", x, e) | ("if", e) | ("do", e)
   ("do", [forms])
+  ("callall", name)                     (for [hfn name] (hfn)): call every closure of a list
 
 Reference semantics (docs/api.rst `let`, `nonlocal`, `global`, comprehension forms + Python's
 scoping for functions and classes):
@@ -73,6 +74,8 @@ def render(f):
         return "(do %s)" % " ".join(map(render, f[1]))
     if k == "sym":
         return f[1]
+    if k == "callall":
+        return "(for [hfn %s] (hfn))" % f[1]
     raise ValueError(f)
 
 
@@ -219,6 +222,8 @@ def analyse_function(params, body, module_defined, static_chain, is_module=False
                     elif c[0] in ("if", "do"):
                         walk([c[1]], letbound - own, own)
                 walk([f[3]], letbound - own, own)
+            elif k == "callall":
+                info.locals.add("hfn")
             elif k in ("nonlocal", "global"):
                 if is_module:
                     raise Ambiguous("declaration outside a function")
@@ -423,6 +428,14 @@ class Interp:
             return None
         if k in ("nonlocal", "global"):
             return None
+        if k == "callall":
+            fns = self.read(env, f[1])
+            if not isinstance(fns, list):
+                raise Ambiguous("callall of a non-list")
+            for fn in fns:
+                self.write(env, "hfn", fn)
+                self.apply(fn, [])
+            return None
         if k == "do":
             return self.body(f[1], env)
         if k == "lfor":
@@ -575,7 +588,7 @@ class Gen:
         if self.flavour == "c07":
             kinds = [("defn", 0.5), ("let", 0.3), ("class", 0.2)]
         else:
-            kinds = [("let", 0.45), ("defn", 0.25), ("fn", 0.12), ("lfor", 0.13), ("class", 0.05)]
+            kinds = [("let", 0.43), ("defn", 0.22), ("fn", 0.10), ("lfor", 0.20), ("class", 0.05)]
         acc = 0
         kind = kinds[-1][0]
         for kd, w in kinds:
@@ -626,8 +639,26 @@ class Gen:
                 cl.append(("if", self.ref(self.name())))
             else:
                 cl.append(("do", self.ref(self.name())))
-        final = self.ref(self.name()) if r.random() < 0.6 else ("do", [("setx", self.name(), self.lit()), self.ref(self.name())])
-        return ("setv", "res%d" % next(self.fns), ("lfor", "lfor", cl, final)), None
+        own = [c[1] for c in cl if c[0] in ("for", "setv")]
+        c2 = r.random()
+        res = "res%d" % next(self.fns)
+        if c2 < 0.40:
+            final = self.ref(self.name())
+        elif c2 < 0.55:
+            final = ("do", [("setx", self.name(), self.lit()), self.ref(self.name())])
+        elif c2 < 0.72:
+            # a closure created and called inside the form, referring to the form's own variable
+            final = ("call", ("fn", [], [self.ref(r.choice(own))]), [])
+        elif c2 < 0.86:
+            # a nested comprehension as direct child, referring to the outer form's variable
+            inner_var = r.choice([n for n in POOL if n not in own] or list(POOL))
+            final = ("lfor", "lfor", [("for", inner_var, r.randint(1, 2))], self.ref(r.choice(own)))
+        else:
+            # closures that escape the form and are called later
+            final = ("fn", [], [self.ref(r.choice(own + [self.name()]))])
+            return ("do", [("setv", res, ("lfor", "lfor", cl, final)), ("callall", res),
+                           ("setv", self.name(), self.lit()), ("callall", res)]), None
+        return ("setv", res, ("lfor", "lfor", cl, final)), None
 
     def program(self):
         self.reset()
